@@ -31,7 +31,8 @@ KINDS = {"main": dict(imports="From Coq Require Import ZArith String.\nFrom SS R
 RULE = ("parked greenlet chains (0..3 nested greenlets, call depth 1..3 in each) x asker chains (0..3 nested greenlets, "
         "plain/generator/coroutine/stackscope-named frames) x base {fresh thread, main thread}; per scenario every "
         "greenlet in sight is extracted from the asker's innermost frame (current, ancestors, parked = outside/sibling/"
-        "child/descendant view, dead, unstarted, running / suspended in another thread). non-trivial = some query yields "
+        "child/descendant view, dead, unstarted, running / suspended in another thread, and the running MAIN greenlet of "
+        "another thread). non-trivial = some query yields "
         ">= 2 frames or the other-thread error. kind gb: trio task with greenback alternation depth n = 0..3 (thorough 0..6), "
         "extract(task.coro) from outside the task and from inside it j = 0..2 (thorough 0..3) greenlets below its sync code; "
         "compared with M_Greenback.gb_extract in Coq and with the shadow call stack directly; also with every await_ given a "
@@ -154,6 +155,15 @@ def _classes():
             self.g_run.switch()
             self.g_susp.switch()
 
+    class BlockedM(stackgen.Blocked):
+        """a second helper thread that uses no greenlets of its own: it publishes ITS main greenlet
+        (running there, parent None) and parks in a C call"""
+
+        def b3(self):
+            import greenlet
+            self.g_main_running = greenlet.getcurrent()
+            super().b3()
+
     class Sub:
         """ctx seen by the parked chain"""
 
@@ -188,7 +198,9 @@ def _classes():
             orig = stackgen.Blocked
             stackgen.Blocked = BlockedG
             try:
-                return super().run(base)
+                with BlockedM() as bm:
+                    self.blocked_main = bm
+                    return super().run(base)
             finally:
                 stackgen.Blocked = orig
 
@@ -217,7 +229,8 @@ def _classes():
             tg += [("susp%d" % j, x) for j, x in enumerate(self.susp_glets)]
             tg += [("sib", self.sib), ("dead", self.dead), ("unstarted", self.unstarted)]
             b = self.blocked
-            tg += [("t_running", b.g_run), ("t_susp", b.g_susp), ("t_main", b.g_main)]
+            tg += [("t_running", b.g_run), ("t_susp", b.g_susp), ("t_main", b.g_main),
+                   ("t_mainrunning", self.blocked_main.g_main_running)]
             tg += [(nm, x) for nm, x in self.extra_targets() if x is not cur]
             self.targets = tg
             # ids for chains hanging off gr_frame of targets that are not yet known
@@ -487,7 +500,8 @@ def _oracle15(obs):
         elif not g["active"]:
             exp = ["F", []]                  # unstarted / dead
         elif not g["current"]:
-            exp = ["T", []]                  # running in another thread: an error, not some other stack
+            exp = ["T", []]                  # running in another thread (a child greenlet there or that thread's
+                                             # main greenlet): the documented error, not some other stack
         else:
             exp = ["F", obs["own_cur"]]      # the caller's own portion of the running stack
         if r != exp:
